@@ -877,7 +877,37 @@ def run_impl(c):
             rows_ok, detail = False, "row-by-row evaluation raised %s: %s" % (exn_name(ex), str(ex)[:100])
         obs["rows_ok"] = rows_ok
         obs["rows_detail"] = detail
+    # results must not share state that outlives the call: overwrite, in place, every writeable array the first call
+    # returned, then put the same question to a FRESH receiver with freshly built arguments.  (Only state outside the
+    # receiver and the arguments -- module constants, memoised results -- can make that answer change; an accessor that
+    # hands out the receiver's own array is not judged here.)
+    if obs["outcome"] == "ok" and obs.get("deterministic") and not e.mutator:
+        try:
+            rf, af = setup()
+            want = snap(do_call(e, rf, af, vi))
+            for a in _result_arrays(r1):
+                if a.flags.writeable and a.size:
+                    try:
+                        a[...] = 7
+                    except Exception:  # noqa
+                        pass
+            rf, af = setup()
+            if snap(do_call(e, rf, af, vi)) != want:
+                obs["deterministic"] = False
+                obs["msg"] = ("after the caller overwrote an earlier result in place, a fresh object given the same arguments "
+                              "answers differently (results share state that outlives the call)")
+        except Exception as ex:  # noqa
+            obs["deterministic"] = False
+            obs["msg"] = "call after overwriting an earlier result raised %s: %s" % (exn_name(ex), str(ex)[:100])
     return obs
+
+
+def _result_arrays(x, depth=0):
+    if isinstance(x, np.ndarray):
+        return [x]
+    if isinstance(x, (list, tuple)) and depth < 4:
+        return [a for y in x for a in _result_arrays(y, depth + 1)]
+    return []
 
 
 def single_shape(e, a):
